@@ -94,6 +94,50 @@ class SeqPart(Part):
                 "last_steps": res.trace[-2:]}
 
 
+class ConcPart(Part):
+    engine = "CONC"
+    name = "conc"
+    rule = ("CONC: sequential set-up history, then 2-4 tasks x 1-2 calls under the seeded baton-passing "
+            "scheduler (policy per run: uniform random / PCT d<=3 / bounded pre-emption / probe-biased; wake-up "
+            "choice FIFO or PRNG; spurious wake-ups); oracle = a sequential order consistent with per-task "
+            "order and real-time precedence whose model execution yields every outcome and the final "
+            "alpha(directory); then termination, empty locked lists, follow-up calls. distinct+non-trivial = "
+            "distinct partial-order signatures (per path the sequence of (task, op kind)) in which >= 2 tasks "
+            "touched a common path")
+
+    def __init__(self, prop, family="obj", mp=False, name=None, weight=1.0):
+        Part.__init__(self, prop)
+        self.family = family
+        self.mp = mp
+        self.weight = weight
+        if name:
+            self.name = name
+
+    def gen(self, seed, tier):
+        return gen.gen_conc_program(seed, self.family, tier, mp=self.mp)
+
+    def run(self, prog):
+        from . import conc
+        res = conc.run_conc(prog)
+        if "preempt" not in prog and res.stats.get("preempt") is not None and res.violations:
+            # make the failing schedule explicit so that replay / shrinking are pure functions of the file
+            prog["preempt"] = res.stats["preempt"]
+            prog["knobs"] = dict(prog["knobs"], policy="default")
+        # set-up disagreements are not concurrency findings
+        res.violations = [v for v in res.violations if "SETUP" not in v.props]
+        return res
+
+    def key(self, prog, res):
+        if res.stats.get("shared"):
+            return res.stats.get("interleaving")
+        return None
+
+    def sample(self, prog, res):
+        return {"part": self.name, "cfg": prog["cfg"], "knobs": prog["knobs"], "setup": prog["setup"],
+                "tasks": prog["tasks"], "pids": prog["pids"], "decisions": res.stats.get("decisions"),
+                "switches": res.stats.get("switches")}
+
+
 _TABLE = {}
 _META = {}
 
